@@ -14,7 +14,7 @@ META = {
                  "carried-clock lemma with an UNBOUNDED symbolic clock value",
         "thorough": "as quick with all 16 flag combinations at 8 velocity bins (+4 at 1-2 bins)",
     },
-    "outside_claim": ["pieces longer than 4 bars / 3 notes", "chunks that are not whole bars", "custom step sizes"],
+    "outside_claim": ["pieces longer than 4 bars / 3 notes", "chunks that are not whole bars", "custom step sizes", "tokeniser resolutions other than 12, 24, 48"],
     "stubs": ["np.digitize ite-sum", "int()/float() shadowed", "logging disabled", "find_minimal_distance ite-merged summary"],
 }
 
@@ -231,6 +231,53 @@ def q_split_chunks(fl, bins):
                  desc="chunks cut with Sequence.split, stray mid-bar signature")
 
 
+def q_split_chunks_ppqn(fl, bins, ppqn):
+    """a tokeniser with its own resolution: the signature is announced once at the start, chunks cut with Sequence.split do
+    not repeat it, so every later call rebuilds the bar length from the carried signature"""
+    u = ppqn // 2
+
+    def fn(ctx):
+        from props.c01 import Tokeniser
+        tok = Tokeniser(ppqn=ppqn, num_tracks=1, pitch_range=(60, 62), velocity_bins=bins, note_values=[u, 2 * u, 4 * u],
+                        flag_running_values=fl[0],
+                        flag_fuse_track=fl[1], flag_fuse_value=fl[2], flag_fuse_velocity=fl[3])
+        nb = 3
+        bar = 4 * ppqn          # notes last 1-2 units of ppqn/2 and never cross a bar line (split would cut them)
+        k = ctx.int("k", 0, 7)
+        j = ctx.int("j", 0, 6)
+
+        def piece():
+            ms = [ts(4, 4, time=0), on(0, 60, 70, time=u * k), off(0, 60, time=u * k + u),
+                  on(0, 62, 70, time=bar + u * j), off(0, 62, time=bar + u * j + 2 * u),
+                  on(0, 61, 70, time=2 * bar + u * j), off(0, 61, time=2 * bar + u * j + 2 * u),
+                  Message(message_type=INTERNAL, channel=0, time=bar * nb)]
+            return abs_sequence(ms)
+        ok, whole = call(tok.tokenise, [piece()])
+        ctx.must("whole_piece_tokenises", ok)
+        if not ok:
+            return ["raised"]
+        ref = notes_of(tok.detokenise(whole))
+        bad = []
+        for groups in compositions(nb):
+            chunks = piece().split([bar * len(g) for g in groups[:-1]])
+            state, toks, okc = dict(), [], True
+            for c_ in chunks:
+                o, t = call(tok.tokenise, [c_], state_dict=state)
+                if not o:
+                    okc = False
+                    bad.append((groups, "raised " + type(t).__name__))
+                    break
+                toks.extend(t)
+            if okc and notes_of(tok.detokenise(toks)) != ref:
+                bad.append((groups, "differs"))
+        ctx.note("groupings_that_differ", [str(b) for b in bad][:6])
+        ctx.must("every_grouping_equals_whole", not bad, disc="split_chunks_ppqn")
+        return [whole, [str(b) for b in bad]]
+    return Query(f"split_chunks_ppqn{ppqn}/f{''.join(str(int(x)) for x in fl)}-b{bins}", fn,
+                 ["whole_piece_tokenises", "every_grouping_equals_whole"],
+                 desc=f"tokeniser resolution {ppqn}, chunks cut with Sequence.split")
+
+
 def q_clock_lemma(fl, bins):
     """the carried absolute clock never leaks into the tokens: same chunk from cur_time = T0 (unbounded) and from 0"""
     def fn(ctx):
@@ -276,6 +323,8 @@ def queries(tier, seed):
     qs.append(q_groups("f", FLAGS[0], 1, piece_f("late34"), "late34", meta_track=1, whole_from_original=True))
     qs.append(q_split_chunks(FLAGS[0], 1))
     qs.append(q_split_chunks(FLAGS[15], 8))
+    qs.append(q_split_chunks_ppqn(FLAGS[0], 1, 48))
+    qs.append(q_split_chunks_ppqn(FLAGS[15], 8, 12))
     qs.append(q_groups("a", FLAGS[0], 1, piece_a("34-38-34"), "34-38-34"))     # signature history A -> B -> A
     qs.append(q_groups("a", FLAGS[15], 8, piece_a("none"), "none", bar_tokens=False))
     qs.append(q_groups("c", FLAGS[0], 1, piece_c("34"), "34", bar_tokens=False))
